@@ -27,12 +27,12 @@ Definition hrg_of (p : hrg_w) : hrg :=
 
 Inductive factor_w :=
 | WConstant (w : json)
-| WFinite (flat : list num) (pshape : list nat) (vaxes : list axis) (default : num).
+| WFinite (phys : tens) (pshape : list nat) (vaxes : list axis) (default : num).
 
 Definition factor_of (f : factor_w) : factor :=
   match f with
   | WConstant w => FConstant w
-  | WFinite fl ps va d => FFinite (mkPT fl ps va d)
+  | WFinite t ps va d => FFinite (mkPT t 0 ps va d)
   end.
 
 Definition fgg_w := (hrg_w * list (str * domain) * list (str * factor_w))%type.
